@@ -13,7 +13,7 @@ cd $WT
 PKGS=(); RUNS=()
 for pair in "$@"; do
   f=${pair%%:*}; d=${pair##*:}
-  cp "$SRC/$f" "$WT/$d/" || exit 2
+  mkdir -p "$WT/$d"; cp "$SRC/$f" "$WT/$d/" || exit 2
   PKGS+=("./$d/")
   RUNS+=($(grep -ohE '^func (Test[A-Za-z0-9_]+)' "$SRC/$f" | sed 's/^func //'))
 done
